@@ -71,7 +71,9 @@ static void vf_step(prog_t *g,int which){
       case 6: hmixi(&g->out,ov_pcm_seek_page(&g->vf,T/3)); vf_read_f(g,2); break; case 7: hmixi(&g->out,ov_pcm_seek(&g->vf,1)); vf_read_f(g,30); break; case 8: vf_read_f(g,100000); break; }
   } else {
     switch(s){ case 1: vf_read_i(g,5,2,1); break; case 2: vf_read_i(g,5,1,0); break; case 3: hmixi(&g->out,ov_halfrate(&g->vf,1)); vf_read_i(g,4,2,1); break; case 4: hmixi(&g->out,ov_pcm_seek(&g->vf,3001)); vf_read_i(g,4,2,0); break;
-      case 5: hmixi(&g->out,ov_halfrate(&g->vf,0)); vf_read_i(g,3,2,1); break; case 6: hmixi(&g->out,ov_raw_seek(&g->vf,0)); vf_read_i(g,8,2,1); break; case 7: vf_read_i(g,6,1,1); break; case 8: vf_read_i(g,100000,2,1); break; }
+      case 5: hmixi(&g->out,ov_halfrate(&g->vf,0)); vf_read_i(g,3,2,1); break; case 6: hmixi(&g->out,ov_raw_seek(&g->vf,0)); vf_read_i(g,8,2,1); break;
+      /* a lapping seek here too, so that two handles lap at the same time (the lap data of one call must not live where another handle's call can reach it) */
+      case 7: hmixi(&g->out,ov_time_seek_lap(&g->vf,0.02)); vf_read_i(g,6,1,1); hmixi(&g->out,ov_pcm_seek_page_lap(&g->vf,2000)); vf_read_i(g,2,2,1); break; case 8: vf_read_i(g,100000,2,1); break; }
   }
   if(s==9) hmixi(&g->out,ov_clear(&g->vf));
 }
